@@ -103,24 +103,25 @@ fn ids(s: &Snap) -> Vec<(u64, u64)> {
 }
 
 fn finish<K: SimK, V: SimV>(cx: &mut Cx<K, V>, what: &str, r: std::thread::Result<fmt::Result>, sink: &Sink, expected: &str) {
+    let failed = sink.failed || sink.elem_failed;
     match r {
         Err(p) => {
-            if !(p.is::<Injected>() || p.is::<Watchdog>()) && sink.failed {
-                violate("panic-on-sink-error", format!("{what}: formatting into a failing sink panicked instead of returning"));
+            if !(p.is::<Injected>() || p.is::<Watchdog>()) && failed {
+                violate("panic-on-sink-error", format!("{what}: formatting panicked instead of returning when {} reported an error", if sink.failed { "the sink" } else { "an element's formatter" }));
             }
             resume_unwind(p);
         }
         Ok(res) => {
             cx.dg(res.is_ok() as u64);
-            if !sink.failed {
+            if !failed {
                 if res.is_err() {
                     violate("wrong-text", format!("{what}: formatting into a healthy sink reported an error"));
                 } else if sink.text() != expected {
                     violate("wrong-text", format!("{what}: rendered {:?} but the entries seen through iteration render as {:?}", sink.text(), expected));
                 }
             } else {
-                cx.probe("sink_failed_midway");
-                if res.is_ok() {
+                cx.probe(if sink.failed { "sink_failed_midway" } else { "element_formatter_failed_midway" });
+                if sink.failed && res.is_ok() {
                     violate("wrong-text", format!("{what}: reported success although the sink rejected a write; the sink holds {:?} instead of {:?}", sink.text(), expected));
                 }
             }
@@ -134,8 +135,10 @@ pub fn fmt_map<K: SimK, V: SimV, const C: usize>(m: &Map<K, V, C>, cx: &mut Cx<K
     if spec % 8 != 0 {
         cx.probe("format_spec_with_flags");
     }
+    crate::env::arm_fmt_elem(sc.elem_fail_at);
     let r = catch_unwind(AssertUnwindSafe(|| win!(aw, fmt_with!(sink, style, spec, m))));
     crate::alloc::arm(false);
+    sink.elem_failed = crate::env::take_fmt_elem_failed();
     let e = ids(pre);
     let _p = crate::alloc::Pause::new();
     let expected = match style {
@@ -152,8 +155,10 @@ pub fn fmt_map<K: SimK, V: SimV, const C: usize>(m: &Map<K, V, C>, cx: &mut Cx<K
 pub fn fmt_set<K: SimK, V: SimV, const C: usize>(s: &Set<K, C>, cx: &mut Cx<K, V>, style: Style, spec: u8, sc: SinkCfg, pre: &Snap) {
     let aw = cx.cfg.alloc_window;
     let mut sink = Sink::new(sc.cap, sc.fail_at);
+    crate::env::arm_fmt_elem(sc.elem_fail_at);
     let r = catch_unwind(AssertUnwindSafe(|| win!(aw, fmt_with!(sink, style, spec, s))));
     crate::alloc::arm(false);
+    sink.elem_failed = crate::env::take_fmt_elem_failed();
     let e = ids(pre);
     let _p = crate::alloc::Pause::new();
     let expected = match style {
@@ -171,7 +176,7 @@ pub fn fmt_set<K: SimK, V: SimV, const C: usize>(s: &Set<K, C>, cx: &mut Cx<K, V
 /// `parts`: 0 = (k, v) tuples, 1 = keys only, 2 = values only.
 pub fn check_iter_text<K: SimK, V: SimV>(cx: &mut Cx<K, V>, what: &str, r: std::thread::Result<fmt::Result>, sink: &Sink, remaining: &[(u64, u64)], parts: u8, style: Style, spec: u8) {
     let _p = crate::alloc::Pause::new();
-    if r.is_ok() && !sink.failed {
+    if r.is_ok() && !sink.failed && !sink.elem_failed {
         let toks = tokens(sink.text());
         // rebuild the listed entries from the tokens, in order of appearance
         let mut listed: Vec<(u64, u64)> = Vec::new();
@@ -222,21 +227,22 @@ pub fn check_iter_text<K: SimK, V: SimV>(cx: &mut Cx<K, V>, what: &str, r: std::
             return;
         }
     }
+    let failed = sink.failed || sink.elem_failed;
     match r {
         Err(p) => {
-            if !(p.is::<Injected>() || p.is::<Watchdog>()) && sink.failed {
-                violate("panic-on-sink-error", format!("{what}: formatting into a failing sink panicked instead of returning"));
+            if !(p.is::<Injected>() || p.is::<Watchdog>()) && failed {
+                violate("panic-on-sink-error", format!("{what}: formatting panicked instead of returning when {} reported an error", if sink.failed { "the sink" } else { "an element's formatter" }));
             }
             resume_unwind(p);
         }
         Ok(res) => {
             cx.dg(res.is_ok() as u64);
-            if !sink.failed && res.is_err() {
+            if !failed && res.is_err() {
                 violate("wrong-text", format!("{what}: formatting into a healthy sink reported an error"));
             }
-            if sink.failed {
-                cx.probe("sink_failed_midway");
-                if res.is_ok() {
+            if failed {
+                cx.probe(if sink.failed { "sink_failed_midway" } else { "element_formatter_failed_midway" });
+                if sink.failed && res.is_ok() {
                     violate("wrong-text", format!("{what}: reported success although the sink rejected a write"));
                 }
             }
@@ -256,9 +262,12 @@ pub fn fmt_iter<K: SimK, V: SimV, const C: usize>(m: &mut Map<K, V, C>, cx: &mut
         cx.probe("iterator_debug_partly_consumed");
     }
     macro_rules! render {
-        ($it:expr) => {
-            catch_unwind(AssertUnwindSafe(|| win!(aw, fmt_dbg!(sink, style, spec, $it))))
-        };
+        ($it:expr) => {{
+            crate::env::arm_fmt_elem(sc.elem_fail_at);
+            let r = catch_unwind(AssertUnwindSafe(|| win!(aw, fmt_dbg!(sink, style, spec, $it))));
+            sink.elem_failed = crate::env::take_fmt_elem_failed();
+            r
+        }};
     }
     // remaining = all entries whose key (or value) was not handed back yet
     let rest = |yk: &Vec<u64>, yv: &Vec<u64>, by_val: bool| -> Vec<(u64, u64)> {
